@@ -369,8 +369,10 @@ fn fop() -> impl Strategy<Value = FOp> {
 }
 
 pub fn run(c: &Ctx) {
-    c.set_rule("histories of 1..30 file operations (write_all, append_all, write_lines, append_line, append_lines, write()/append() handles with chunked writes and flushes, copy file->file and into a directory, move_p file->file and into a directory, remove+recreate; write()/append() handles that stay open across later steps on other files and are flushed/dropped at arbitrary later points) over six file paths in two directories; data: empty, ASCII with newlines, multi-byte UTF-8, invalid UTF-8 / CR / NUL, random bytes, 1-16 KiB blocks; lines incl. empty ones and ones carrying a terminator. After EVERY step every path is read back (read handle, read_all, read_lines; on Stdfs also std::fs::read) and compared with a byte-vector model: write replaces, append extends, helpers add one newline per line, untouched files unchanged, copies/moves do not alias; read_lines(write_lines(ls))==ls for proper lines. Both backends. Non-trivial = history with >=2 writes/appends to one file and a multi-byte or invalid-UTF-8 payload; distinct by history.");
+    c.set_rule("histories of 1..30 file operations (write_all, append_all, write_lines, append_line, append_lines, write()/append() handles with chunked writes and flushes, copy file->file and into a directory, move_p file->file and into a directory, remove+recreate; write()/append() handles that stay open across later steps on other files and are flushed/dropped at arbitrary later points) over six file paths in two directories; data: empty, ASCII with newlines, multi-byte UTF-8, invalid UTF-8 / CR / NUL, random bytes, 1-16 KiB blocks; lines incl. empty ones and ones carrying a terminator. After EVERY step every path is read back (read handle, read_all, read_lines; on Stdfs also std::fs::read) and compared with a byte-vector model: write replaces, append extends, helpers add one newline per line, untouched files unchanged, copies/moves do not alias; read_lines(write_lines(ls))==ls for proper lines. Both backends. Plus, on Stdfs, every program of length 5/6 over several append writers of one file (two append handles with write+flush, append_all, append_line): old content plus every chunk in call order after every step. Non-trivial = history with >=2 writes/appends to one file and a multi-byte or invalid-UTF-8 payload; distinct by history.");
     c.assume("append_line(\"\") and write_lines/append_lines whose joined text is empty: no-op or newline form both admitted (deliberately skipped by both backends; outside the statement's round-trip clause)");
+    // "an append adds at the end and never alters the existing prefix" with several writers on one Stdfs file
+    crate::props::c07::run_append_interleave(c, c.tier.pick(5, 6));
     for (stdfs, n, salt) in [(false, c.tier.pick(30_000, 300_000), 600u64), (true, c.tier.pick(2_000, 20_000), 601)] {
         run_proptest("files", salt, || prop::collection::vec(fop(), 1..30).prop_map(move |ops| FileCase { stdfs, ops }), n, |case: &FileCase| {
             mark("files", &serde_json::to_string(&json!({"stdfs": case.stdfs, "n": case.ops.len()})).unwrap());
@@ -406,6 +408,12 @@ pub fn run(c: &Ctx) {
 }
 
 pub fn replay(kind: &str, case: &Value) -> Option<CaseResult> {
+    if kind == "append-interleave" {
+        let p: Vec<u8> = serde_json::from_value(case.clone()).ok()?;
+        let r = crate::props::c07::check_append_interleave(&p);
+        crate::sandbox::cleanup();
+        return Some(r);
+    }
     match kind {
         "files" => {
             let r = check_files(&serde_json::from_value(case.clone()).ok()?);
